@@ -18,3 +18,23 @@ def regenerate():
                 'namespace Rbql.Generated\ndef moduleLevelMutable : List String := []\ndef globalsDeclared : List String := []\n'
                 'def writtenOnQueryPath : List String := ["<scan failed>"]\ndef classLevelMutable : List String := []\ndef mutableDefaults : List String := []\nend Rbql.Generated\n' % str(e)[:200].replace('\n', ' '))
     common.write_if_changed(common.LEAN_DIR / 'Rbql' / 'Generated' / 'SharedState.lean', text)
+    regenerate_row_flow()
+
+
+def regenerate_row_flow():
+    """C06: the row flow of both engines (tools/row_flow_scan.py -> Generated/RowFlow.lean)"""
+    import row_flow_scan
+    try:
+        pf = row_flow_scan.scan_python(str(common.REPO / 'rbql-py' / 'rbql' / 'rbql_engine.py'), str(common.REPO / 'rbql-py'))
+    except Exception as e:
+        pf = row_flow_scan.Flow()
+        pf.bind('out_fields', 'unknown', 'scan of rbql_engine.py failed: %s' % type(e).__name__)
+        pf.write('out_fields')
+    try:
+        jf = row_flow_scan.scan_js(str(common.REPO / 'rbql-js' / 'rbql.js'), common.NODE)
+    except Exception as e:
+        jf = row_flow_scan.Flow()
+        jf.bind('out_fields', 'unknown', 'scan of rbql.js failed: %s' % type(e).__name__)
+        jf.write('out_fields')
+    common.write_if_changed(common.LEAN_DIR / 'Rbql' / 'Generated' / 'RowFlow.lean', row_flow_scan.to_lean(pf, jf))
+    return pf, jf
